@@ -42,7 +42,7 @@ theorem pending_bounded {g : Graph} {par : Nat} {s : S} (inv : Inv g par s) :
 
 /-- The want phase changes no running/finished count (it only assigns Want/Ready) and does not
     touch `tasks_run`, the number the final `ran N tasks` line reports. -/
-theorem want_keeps_finished (g : Graph) (s s' : S) (f : Nat) (h : want g s f = .ok s') :
+theorem want_keeps_finished (g : Graph) (s s' : S) (f : Nat) (h : want g s f = .ok () s') :
     s'.tasksRun = s.tasksRun ∧ ∀ b, (s'.st b = .done ↔ s.st b = .done) :=
   let e := want_lateEq' g s s' f h
   ⟨e.2.2.2, fun b => e.1 b .done (Or.inr (Or.inr (Or.inl rfl)))⟩
